@@ -45,7 +45,10 @@ def uvl_value(v):
     if isinstance(v, str):
         return "'%s'" % v
     if isinstance(v, list):
-        return '[' + ', '.join(uvl_value(x) for x in v) + ']'
+        inner = ', '.join(uvl_value(x) for x in v)
+        # the lexer of the installed uvlparser takes '[5]' for a CARDINALITY token: a one-integer vector
+        # can only be written with inner blanks
+        return '[ ' + inner + ' ]' if (len(v) == 1 and inner.isdigit()) else '[' + inner + ']'
     if isinstance(v, dict):
         return '{' + ', '.join(k if x is None else '%s %s' % (k, uvl_value(x)) for k, x in v.items()) + '}'
     raise ValueError(v)
